@@ -15,7 +15,7 @@ RULE = ('states = quaternions of the alphabet (group elements, lattice non-unit 
         'applications; a case = (law, operand ids); non-trivial when no operand is +-identity')
 ASSUMPTIONS = ['integer lattice (entries in [-2,2]) non-unit quaternions make the non-unit laws exact in floating point',
                'tolerance 1e-12 absolute on unit operands, 1e-12 relative to the product of norms on non-unit operands',
-               'scalar-last vs scalar-first objects are built from the same four numbers in the two orders; normalisation sums in a different order, hence 1e-15 rather than bit equality', 'scalar-last objects are multiplied with Hamilton-ordered right operands, as Quaternion.product documents']
+               'scalar-last vs scalar-first objects are built from the same four numbers in the two orders; normalisation sums in a different order, hence 1e-15 on components and 1e-14 on derived matrices and products rather than bit equality (observed 1.1e-15 on menu entry 2)', 'scalar-last objects are multiplied with Hamilton-ordered right operands, as Quaternion.product documents']
 REQUIRED_CLASSES = ['triples', 'pairs:nonunit', 'inverse:unit', 'inverse:nonunit', 'order:S']
 TOL = 1e-12
 
@@ -166,9 +166,9 @@ def job_order(ctx, k):
         # conjugate as a quaternion: stored in the object's own order
         cS = np.asarray(Sl.conjugate); cH = np.asarray(H.conjugate)
         ctx.close(np.roll(cS, 1), cH, 1e-15, "order='S': conjugate equal (as a quaternion)", key)
-        ctx.close(np.asarray(Sl.to_DCM()), np.asarray(H.to_DCM()), 1e-15, "order='S': to_DCM equal", key)
+        ctx.close(np.asarray(Sl.to_DCM()), np.asarray(H.to_DCM()), 1e-14, "order='S': to_DCM equal", key)
         for j, r in enumerate(others):
-            ctx.close(np.asarray(Sl.product(r.copy())), np.asarray(H.product(r.copy())), 1e-15,
+            ctx.close(np.asarray(Sl.product(r.copy())), np.asarray(H.product(r.copy())), 1e-14,
                       "order='S': product with Hamilton-ordered operand equal", f'{key} r={j}')
             ctx.transitions += 2
         ctx.cls('order:S')
